@@ -9,6 +9,7 @@ import (
 	"runtime/debug"
 	"sort"
 	"strconv"
+	"sync/atomic"
 )
 
 var registry = map[string]*CheckDef{}
@@ -91,6 +92,12 @@ func main() {
 			made = os.Args[2]
 		}
 		os.Exit(genGolden(made))
+	case "gen-golden2":
+		made := "unknown"
+		if len(os.Args) > 2 {
+			made = os.Args[2]
+		}
+		os.Exit(genGolden2(made))
 	case "selftest-race":
 		os.Exit(selftestRace())
 	default:
@@ -129,6 +136,10 @@ func replay(path string) int {
 	ctx := newCtx(def.ID, rep.Tier, rep.Seed)
 	ctx.Verbose = true
 	ctx.curCase = rep.CaseIdx
+	if os.Getenv("VERIF_CHURN") != "0" {
+		startChurn()
+		atomic.StoreInt32(&churnActive, 1)
+	}
 	fmt.Printf("replaying %s tier=%s seed=%d case=%d\n", def.ID, rep.Tier, rep.Seed, rep.CaseIdx)
 	runCaseRecovered(def, ctx, rep.CaseIdx)
 	if ctx.nviol > 0 {
